@@ -65,6 +65,8 @@ class AstGen:
         if self.cfg["unbound_share"] and r.random() < self.cfg["unbound_share"]:
             name = "nofn" if ty == "int" else "nopred"
         nargs = r.choice([0, 1, 1, 2, 2, 3])
+        # (the root-scope spelling `.f(a)` is not generated: the statement names f(a, b) and a.f(b),
+        # and the interpreter does not implement calls in that form at all -- it yields the function)
         style = r.choice(["g", "m"]) if nargs >= 1 else "g"
         args = []
         for _ in range(nargs):
@@ -122,6 +124,13 @@ class AstGen:
             body = self.int_(d - 1)
         finally:
             self.vars.pop()
+        if r.random() < 0.3:
+            self.vars.append(v)
+            try:
+                pred = self.bool_(d - 1)
+            finally:
+                self.vars.pop()
+            return ["filter", src, v, pred]
         return ["map", src, v, body]
 
     def bool_(self, d: int) -> List[Any]:
@@ -153,7 +162,7 @@ class AstGen:
                 body = self.bool_(d - 1)
             finally:
                 self.vars.pop()
-            return [r.choice(["all", "exists"]), src, v, body]
+            return [r.choice(["all", "exists", "all", "exists", "exists_one"]), src, v, body]
         return ["errb"] if r.random() < 0.4 else ["lt", self.int_(d - 1), ["int", 5]]
 
 
@@ -174,7 +183,7 @@ def calls_in(node: Any) -> List[List[Any]]:
 
 
 _KINDS = {"int", "bool", "str", "var", "ilist", "list", "call", "add", "div0", "eq", "lt", "and", "or",
-          "not", "cond", "idx", "map", "all", "exists", "errb"}
+          "not", "cond", "idx", "map", "filter", "all", "exists", "exists_one", "errb"}
 
 
 def generate(seed: int, tier: str = "quick") -> Dict[str, Any]:
@@ -200,12 +209,16 @@ def generate(seed: int, tier: str = "quick") -> Dict[str, Any]:
         style = rw.choice(["dict", "dict", "list"])
         kinds = {}
         for n in names:
-            pool = ["module_def", "nested_def"] if style == "list" else \
+            pool = ["module_def", "nested_def", "celpy_visible_def"] if style == "list" else \
                 ["module_def", "nested_def", "lambda", "instance", "bound_method", "partial",
-                 "unhashable_instance", "unhashable_bound_method"]
+                 "unhashable_instance", "unhashable_bound_method", "celpy_visible_def"]
             kinds[n] = rw.choice(pool)
         # a program *without* the override after one with it: drop the shadowing names sometimes
         supplied = [n for n in names if not (n in SHADOW and i > 0 and rw.random() < 0.6)]
+        # overrides of built-in *operators* (they are functions named _+_, _||_, ... in the library)
+        ops_overridden = []
+        if rw.random() < 0.15:
+            ops_overridden = rw.sample(["_+_", "_||_", "_&&_", "_?_:_"], rw.randrange(1, 3))
         if rw.random() < 0.08:
             supplied = []  # nothing supplied at all: every host name is unbound
         faults: Dict[str, Dict[str, Any]] = {}
@@ -222,6 +235,7 @@ def generate(seed: int, tier: str = "quick") -> Dict[str, Any]:
             "kinds": {n: kinds[n] for n in supplied},
             "faults": faults,
             "empty_as": rw.choice(["none", "empty"]) if not supplied else "n/a",
+            "ops": ops_overridden,
             # variables in the evaluation data that are spelled like functions of the program:
             # functions and variables live in different namespaces, a call must still reach the function
             "bindings": ({n: rw.choice([10, 0, 3]) for n in rw.sample(names, rw.randrange(1, len(names) + 1))}
@@ -253,6 +267,8 @@ def cel(node: Any) -> str:
         texts = [cel(a) for a in args]
         if style == "m":
             return f"({texts[0]}).{name}({', '.join(texts[1:])})"
+        if style == "r":
+            return f".{name}({', '.join(texts)})"  # root-scope spelling of the same call
         return f"{name}({', '.join(texts)})"
     if k == "add":
         return f"({cel(node[1])} + {cel(node[2])})"
@@ -272,7 +288,7 @@ def cel(node: Any) -> str:
         return f"({cel(node[1])} ? {cel(node[2])} : {cel(node[3])})"
     if k == "idx":
         return f"{cel(node[1])}[{node[2]}]"
-    if k in ("map", "all", "exists"):
+    if k in ("map", "filter", "all", "exists", "exists_one"):
         return f"{cel(node[1])}.{k}({node[2]}, {cel(node[3])})"
     if k == "errb":
         return "(1 / 0 == 1)"
@@ -327,6 +343,8 @@ def substitute(node: Any, prog: Dict[str, Any]) -> Any:
         s = " + ".join([str(len(args) + peers.BOOL_FUNCS[name])] + terms)
         return f"(({s}) % 2 == 0)"
     if k == "add":
+        if "_+_" in prog.get("ops", []):
+            return f"({substitute(node[1], prog)} + {substitute(node[2], prog)} + 1000)"
         return f"({substitute(node[1], prog)} + {substitute(node[2], prog)})"
     if k == "div0":
         return f"({substitute(node[1], prog)} / 0)"
@@ -345,7 +363,7 @@ def substitute(node: Any, prog: Dict[str, Any]) -> Any:
                 f"{substitute(node[3], prog)})")
     if k == "idx":
         return f"{substitute(node[1], prog)}[{node[2]}]"
-    if k in ("map", "all", "exists"):
+    if k in ("map", "filter", "all", "exists", "exists_one"):
         return f"{substitute(node[1], prog)}.{k}({node[2]}, {substitute(node[3], prog)})"
     raise ValueError(k)
 
@@ -412,6 +430,10 @@ class Model:
             a, b = self.strict([node[1], node[2]], env, rec, may)
             if a == ERR or b == ERR:
                 return ERR
+            if "_+_" in self.prog.get("ops", []):
+                if rec:
+                    (self.may if may else self.must).append(["_+_", [a, b]])
+                return ["IntType", a[1] + b[1] + 1000]
             return ["IntType", a[1] + b[1]]
         if k == "div0":
             self.ev(node[1], env, rec, may)
@@ -468,6 +490,20 @@ class Model:
             if any_err:
                 return ERR
             return ["ListType", silent]
+        if k in ("filter", "exists_one"):
+            lst = self.ev(node[1], env, rec, may)
+            if lst == ERR:
+                return ERR
+            silent = [self.ev(node[3], dict(env, **{node[2]: x}), False, may) for x in lst[1]]
+            any_err = any(v == ERR for v in silent)
+            if rec:
+                for x in lst[1]:
+                    self.ev(node[3], dict(env, **{node[2]: x}), True, may or any_err)
+            if any_err:
+                return ERR
+            if k == "filter":
+                return ["ListType", [x for x, v in zip(lst[1], silent) if v[1]]]
+            return ["BoolType", sum(1 for v in silent if v[1]) == 1]
         if k in ("all", "exists"):
             lst = self.ev(node[1], env, rec, may)
             if lst == ERR:
@@ -540,11 +576,13 @@ class Model:
 def _functions_for(prog: Dict[str, Any]) -> Any:
     from . import peers
 
-    if not prog["supplied"]:
+    ops = {n: peers.operator_override(n) for n in prog.get("ops", [])}
+    if not prog["supplied"] and not ops:
         return None if prog.get("empty_as") != "empty" else ({} if prog["style"] == "dict" else [])
     fns = {n: peers.make_callable(prog["kinds"][n], n) for n in prog["supplied"]}
-    if prog["style"] == "list":
+    if prog["style"] == "list" and not ops:
         return list(fns.values())
+    fns.update(ops)  # operator names are not identifiers: only the mapping form can bind them
     return fns
 
 
@@ -809,11 +847,11 @@ def type_of(node: Any) -> str:
     k = node[0]
     if k in ("int", "add", "div0", "idx"):
         return "int"
-    if k in ("bool", "eq", "lt", "and", "or", "not", "all", "exists", "errb"):
+    if k in ("bool", "eq", "lt", "and", "or", "not", "all", "exists", "exists_one", "errb"):
         return "bool"
     if k == "str":
         return "str"
-    if k in ("ilist", "map", "list"):
+    if k in ("ilist", "map", "filter", "list"):
         return "list"
     if k == "var":
         return "int"
@@ -853,7 +891,7 @@ def _simpler(node: Any) -> List[Any]:
             for s in _simpler(a):
                 out.append(["list", node[1][:j] + [s] + node[1][j + 1:]])
         return out
-    if k not in ("map", "all", "exists"):
+    if k not in ("map", "filter", "all", "exists", "exists_one"):
         for _, ch in subs:
             if type_of(ch) == ty:
                 out.append(ch)
@@ -911,12 +949,37 @@ def _replace_unbound_list_elements(node: Any, prog: Dict[str, Any]) -> Any:
     return out
 
 
+def _cf_unbound_list_elements(trace: Dict[str, Any], i: int) -> Optional[Dict[str, Any]]:
+    prog = trace["programs"][i]
+    if not _unbound_list_elements(prog["ast"], prog):
+        return None
+    cf_prog = dict(prog, ast=_replace_unbound_list_elements(prog["ast"], prog))
+    return dict(trace, programs=trace["programs"][:i] + [cf_prog] + trace["programs"][i + 1:])
+
+
+def _cf_celpy_visible(trace: Dict[str, Any], i: int) -> Optional[Dict[str, Any]]:
+    prog = trace["programs"][i]
+    if "celpy_visible_def" not in prog["kinds"].values():
+        return None
+    kinds = {n: ("module_def" if k == "celpy_visible_def" else k) for n, k in prog["kinds"].items()}
+    cf_prog = dict(prog, kinds=kinds)
+    return dict(trace, programs=trace["programs"][:i] + [cf_prog] + trace["programs"][i + 1:])
+
+
+COUNTERFACTUALS = {
+    # finding: the construct it names -> the same trace with exactly that construct replaced
+    "unbound-call-as-list-literal-element": _cf_unbound_list_elements,
+    "supplied-function-visible-to-celpy-as-module-qualname": _cf_celpy_visible,
+}
+
+
 def attribute_known(trace: Dict[str, Any], v: Dict[str, Any],
                     findings: List[Dict[str, Any]]) -> Optional[str]:
     """Is this violation an instance of a listed finding?  Decided by a counterfactual: the
-    finding 'unbound call as list-literal element' is the cause iff the failing program contains
-    such elements and the violation disappears when exactly those elements are replaced by a
-    built-in erroring expression (everything else unchanged)."""
+    finding is the cause iff the failing program contains the construct the finding names and the
+    violation disappears when exactly that construct is replaced (everything else unchanged) --
+    an unbound call that is a list-literal element by a built-in erroring expression; a supplied
+    function that celpy can spell as module.qualname by the same stub in the host's own module."""
     for f in findings:
         m = f.get("match", {})
         sig = dict(v["sig"])
@@ -924,16 +987,13 @@ def attribute_known(trace: Dict[str, Any], v: Dict[str, Any],
             sig["host_kind"] = sig["host"][0]
         if not all(sig.get(k) == val for k, val in m.items()):
             continue
-        if f.get("counterfactual") != "unbound-call-as-list-literal-element":
-            continue
+        make = COUNTERFACTUALS.get(f.get("counterfactual", ""))
         i = v.get("program")
-        if i is None or i >= len(trace["programs"]):
+        if make is None or i is None or i >= len(trace["programs"]):
             continue
-        prog = trace["programs"][i]
-        if not _unbound_list_elements(prog["ast"], prog):
+        cf = make(trace, i)
+        if cf is None:
             continue
-        cf_prog = dict(prog, ast=_replace_unbound_list_elements(prog["ast"], prog))
-        cf = dict(trace, programs=trace["programs"][:i] + [cf_prog] + trace["programs"][i + 1:])
         res = execute(cf)
         if not any(x.get("program") == i for x in res["violations"]):
             return f["id"]
